@@ -506,15 +506,21 @@ def run(ctx):
     # ---- a sub-select member of a join: the outer conditions on it are applied to its RESULT, never written into it -------------------------------------
     psub = fn.get('process_subselect')
     ctx.need(psub is not None, 'PlanJoinTablesQuery.process_subselect not found')
-    for shape, inner_where, nconds in itertools.product(('renaming columns', 'star', 'plain columns', 'grouped'), (None, 'w'), (0, 1, 2)):
+    # in a plain `select * / columns from table [where ..]` a filter on the output columns may equally be evaluated inside (it commutes); with renamed columns,
+    # grouping, LIMIT, OFFSET or a window it may not
+    SOUND_INSIDE = ('star', 'plain columns')
+    for shape, inner_where, nconds in itertools.product(('renaming columns', 'star', 'plain columns', 'grouped', 'star with LIMIT', 'star with OFFSET',
+                                                         'star with ORDER BY and LIMIT', 'columns with LIMIT'), (None, 'w'), (0, 1, 2)):
         if shape == 'renaming columns':
             targets = [Obj('Identifier', parts=['id'], alias=None), Obj('Identifier', parts=['y'], alias=Obj('Identifier', parts=['x'], alias=None))]
-        elif shape == 'star':
+        elif shape.startswith('star'):
             targets = [Obj('Star')]
         else:
             targets = [Obj('Identifier', parts=['id'], alias=None), Obj('Identifier', parts=['x'], alias=None)]
         sub = select_ctor(None, targets=targets, from_table=Obj('Identifier', parts=['int2', 't2'], alias=None),
                           where=binop('>', ident('z'), const(0)) if inner_where else None, group_by=[ident('id')] if shape == 'grouped' else None,
+                          limit=const(2) if 'LIMIT' in shape else None, offset=const(1) if 'OFFSET' in shape else None,
+                          order_by=[Obj('OrderBy', field=ident('id'), direction='default', nulls='default')] if 'ORDER BY' in shape else None,
                           alias=Obj('Identifier', parts=['s'], alias=None), parentheses=True)
         sub0 = sub.clone()
         conds = [binop('=', ident('x'), const(1)), binop('<', ident('id'), const(9))][:nconds]
@@ -537,14 +543,19 @@ def run(ctx):
             ctx.ob('C08.subselect-kept', label, False, f'[{label}] process_subselect raises {r.exc_name}', file=PJ, line=psub.lineno)
             continue
         rows += 1
-        same = len(planned) == 1 and all(_same(getattr(planned[0], f), getattr(sub0, f)) for f in ('targets', 'where', 'group_by', 'having', 'order_by', 'limit', 'offset',
-                                                                                                 'distinct', 'from_table'))
+        same_but_where = len(planned) == 1 and all(_same(getattr(planned[0], f), getattr(sub0, f)) for f in ('targets', 'group_by', 'having', 'order_by', 'limit', 'offset',
+                                                                                                            'distinct', 'from_table'))
         outer = added[0].query.where if len(added) == 1 and isinstance(added[0], Obj) and isinstance(added[0].attrs.get('query'), Obj) else None
-        applied = len(added) == 1 and sorted(map(repr, _conjuncts(outer))) == sorted(map(repr, conds)) and added[0].attrs.get('dataframe') == 'R-sub'
+        inside = [c for c in (_conjuncts(planned[0].where) if planned else []) if not any(_same(c, c0) for c0 in _conjuncts(sub0.where))]
+        outside = _conjuncts(outer)
+        kept_inner = planned and all(any(_same(c, c0) for c in _conjuncts(planned[0].where)) for c0 in _conjuncts(sub0.where))
+        once = sorted(map(repr, inside + outside)) == sorted(map(repr, conds))
+        same = bool(same_but_where and kept_inner and (not inside or shape in SOUND_INSIDE))
+        applied = len(added) == 1 and once and added[0].attrs.get('dataframe') == 'R-sub'
         ctx.ob('C08.subselect-kept', label, same and applied,
                f'[{label}] the sub-select that is planned {"is" if same else "is NOT"} the user\'s sub-select and the outer conditions {"are" if applied else "are NOT"} '
-               f'applied to its result: a condition of the outer query names the OUTPUT columns of the sub-select (after renaming / aggregation); written into the '
-               f'sub-select\'s own WHERE it filters on base columns of the same name', file=PJ, line=psub.lineno,
+               f'each applied exactly once: a condition of the outer query names the OUTPUT rows and columns of the sub-select (after renaming / aggregation / LIMIT / '
+               f'OFFSET); written into the sub-select\'s own WHERE it filters base columns of the same name, or filters before the LIMIT cuts', file=PJ, line=psub.lineno,
                witness='select * from int1.t1 a join (select id, y as x from int2.t2) s on a.id = s.id where s.x = 1')
     # ---- a CTE shadows only an unqualified name ------------------------------------------------------------------------------------------
     QP = 'mindsdb_sql/planner/query_planner.py'
